@@ -66,7 +66,8 @@ def gen_req(rng):
     names = [b"X-Caller", b"x-proxy-tag", b"Accept", b"User-Agent", b"Authorization", b"proxy-authorization", b"Cookie"]
     hs = [(rng.choice(names), b"CL" + bytes(rng.choice(b"uvwxyz") for _ in range(4))) for _ in range(rng.randint(0, 4))]
     body = None if rng.random() < 0.5 else b"BODY" + bytes(rng.choice(b"0123456789") for _ in range(rng.randint(0, 20)))
-    return {"scheme": scheme, "host": host, "port": port, "headers": hs, "body": body, "method": "POST" if body else "GET"}
+    return {"scheme": scheme, "host": host, "port": port, "headers": hs, "body": body, "method": "POST" if body else "GET",
+            "sni": "sni.other.example" if rng.random() < 0.25 else None}
 
 
 def hdr_arg(hs):
@@ -108,7 +109,7 @@ def check(rec, c, r, ans):
     import base64
     w = estb2.World(c)
     tok = "tokC11"
-    out = w.request(r["scheme"], r["host"], r["port"], tok, headers=r["headers"], content=r["body"], method=r["method"])
+    out = w.request(r["scheme"], r["host"], r["port"], tok, headers=r["headers"], content=r["body"], method=r["method"], sni=r.get("sni"))
     rec.evals += 1
     rec.distinct.add(repr((sorted(c.items(), key=str), sorted(r.items(), key=str))))
     eff_port = r["port"] if r["port"] is not None else estb2.DEFAULT_PORT[r["scheme"]]
